@@ -3,6 +3,7 @@
 package main
 
 import (
+	"bufio"
 	"encoding/json"
 	"flag"
 	"fmt"
@@ -30,18 +31,25 @@ func main() {
 	flag.StringVar(&cfg.out, "out", "", "case file to write")
 	flag.StringVar(&cfg.statsTo, "stats", "", "stats json to write")
 	flag.StringVar(&cfg.replay, "replay", "", "replay descriptor (property specific)")
-	child := flag.String("child", "", "internal: run one untrusted call in a child process")
+	isoChild := flag.Bool("isolated-child", false, "internal: child process of an isolated run")
+	hungArg := flag.String("hung", "", "internal: indexes of calls that hung in earlier children")
 	flag.Parse()
-	if *child != "" {
-		childMain(*child)
-		return
-	}
 	g, ok := generators[cfg.prop]
 	if !ok {
 		fmt.Fprintf(os.Stderr, "unknown property %q\n", cfg.prop)
 		os.Exit(2)
 	}
-	e := newEmitter(cfg.out)
+	if isolatedProps[cfg.prop] && !*isoChild {
+		os.Exit(orchestrate(cfg))
+	}
+	var e *emitter
+	if *isoChild {
+		e = &emitter{w: bufio.NewWriterSize(os.Stdout, 1<<16), stats: map[string]int{}, child: true}
+		e.hung, e.lastHung = parseHung(*hungArg)
+		e.muted = len(e.hung) > 0
+	} else {
+		e = newEmitter(cfg.out)
+	}
 	rng := rand.New(rand.NewSource(cfg.seed))
 	shaVectors(e, rng)
 	g(cfg, e, rng)
